@@ -64,6 +64,8 @@ pub enum Payload {
     /// a block for a different id/hash than announced
     WrongBlock,
     Empty,
+    /// a signed transaction whose txs_replacements field is large (memory amplification)
+    HugeReplacements,
 }
 
 #[derive(Debug, Clone, Serialize, Deserialize, PartialEq, Eq, Hash)]
@@ -243,8 +245,17 @@ pub fn run_case(case: &Case, prefix: &Built) -> (Vec<(String, String)>, Info) {
                 }
                 call!(n, format!("step {step}"), via, true, n.net_event(NetworkEvent::IncomingNetworkMessage { peer_index: from, buffer: Message::BlockHeaderHash(hash, id).serialize() }));
                 n.take_fetches();
-                call!(n, format!("step {step}"), via, true, n.net_event(NetworkEvent::BlockFetched { block_hash: hash, block_id: id, peer_index: from, buffer: buf }));
-                pump_all!(n, via, true);
+                let buf_len = buf.len();
+                let ((), peak) = crate::alloc::measure(|| {
+                    call!(n, format!("step {step}"), via, true, n.net_event(NetworkEvent::BlockFetched { block_hash: hash, block_id: id, peer_index: from, buffer: buf }));
+                    pump_all!(n, via, true);
+                });
+                if peak > 64 * buf_len + 4 * 1024 * 1024 {
+                    v.push((
+                        format!("C11|allocation_out_of_proportion|via={via}"),
+                        format!("step {step}: handling a fetched block of {buf_len} bytes allocated {peak} bytes at peak"),
+                    ));
+                }
             }
             Ev::HostileTx { edit } => {
                 info.hostile_events += 1;
@@ -416,6 +427,19 @@ fn hostile_block(builder: &Node, tip_hash: SaitoHash, payload: Payload, salt: u6
             re_sign(&mut b, &creator, true);
             Some((b, true))
         }
+        Payload::HugeReplacements => {
+            let c = key(3);
+            let mut t = saito_core::core::consensus::transaction::Transaction::default();
+            let mut s = saito_core::core::consensus::slip::Slip::default();
+            s.public_key = c.0;
+            t.add_from_slip(s.clone());
+            t.add_to_slip(s);
+            t.timestamp = ts;
+            t.txs_replacements = 50_000;
+            t.sign(&c.1);
+            t.generate(&creator.0, 0, 0);
+            block_on(builder.make_block_as(&creator, tip_hash, ts, vec![t], gt)).ok().map(|b| (b, false))
+        }
         Payload::HeaderLie(e) => {
             let mut b = block_on(builder.make_block_as(&creator, tip_hash, ts, vec![carrier_tx(&creator, ts)], gt)).ok()?;
             let applied = apply_block_edit(&mut b, BLOCK_EDITS[e as usize % BLOCK_EDITS.len()], &creator, tb.difficulty);
@@ -447,13 +471,14 @@ fn eval(c: &mut Ctx, case: &Case, prefix: &Built, counting: bool) -> Vec<(String
 
 pub fn arb_payload() -> impl Strategy<Value = Payload> {
     prop_oneof![
-        Just(Payload::Garbage),
-        Just(Payload::Truncated),
-        any::<u8>().prop_map(Payload::HeaderLie),
-        any::<u8>().prop_map(Payload::BadTx),
-        Just(Payload::InBlockDoubleSpend),
-        Just(Payload::WrongBlock),
-        Just(Payload::Empty),
+        4 => Just(Payload::Garbage),
+        4 => Just(Payload::Truncated),
+        4 => any::<u8>().prop_map(Payload::HeaderLie),
+        4 => any::<u8>().prop_map(Payload::BadTx),
+        4 => Just(Payload::InBlockDoubleSpend),
+        4 => Just(Payload::WrongBlock),
+        4 => Just(Payload::Empty),
+        1 => Just(Payload::HugeReplacements),
     ]
 }
 
